@@ -368,6 +368,34 @@ def corpus(ck, tmp):
             fails.append({"input": {"description": dsc}, "observed": f"create raised {rr[1]}", "expected": "created: every ASCII letter is a component type character"})
             continue
         check_one(ck, "corpus", rr[1], "every ASCII letter as a one-character component part", fails)
+    fails += signed_stream(ck, tmp, base)
+    return fails
+
+
+def signed_stream(ck, tmp, base):
+    """Envelopes obtained from created ones BY SIGNING with the tool's own sign command — each of the five algorithms, key ids at
+    width boundaries, once and twice (two signature blocks): parse must show every signature block and create must write the
+    authentication wrapper again byte for byte."""
+    import signlib
+    fails = []
+    d = os.path.join(tmp, "c03-sign")
+    os.makedirs(d, exist_ok=True)
+    keys = signlib.Keys(os.path.join(d, "keys"), n=1)
+    r0 = interp.run_impl(interp.impl_create, json.loads(json.dumps(base)))
+    if r0[0] != "ok":
+        return fails
+    for i, alg in enumerate(signlib.ALGS):
+        kid = [0x40000000, 23, 256, 65536, 2 ** 32 - 1][i]
+        r1 = signlib.lib_single(d, r0[1], keys.for_alg(alg), kid, alg, keys.dir, "error", name=f"s{i}")
+        if r1[0] != "ok" or not r1[1]:
+            fails.append({"input": {"envelope": r0[1].hex(), "sign": {"alg": alg, "key_id": kid}}, "observed": f"signing failed: {r1[:2]}", "expected": "signed"})
+            continue
+        check_one(ck, "signed", r1[1], f"created envelope signed with {alg}, key id {kid}", fails)
+        alg2 = signlib.ALGS[(i + 2) % len(signlib.ALGS)]
+        r2 = signlib.lib_single(d, r1[1], keys.for_alg(alg2), 7, alg2, keys.dir, "skip", name=f"t{i}")
+        if r2[0] == "ok" and r2[1]:
+            check_one(ck, "signed", r2[1], f"created envelope signed with {alg}, then handed to sign again ({alg2}, skip)", fails)
+    signlib._clean_modules()
     return fails
 
 
